@@ -479,7 +479,12 @@ int yr_re_ast_split_at_chaining_point(
 
   while (child != NULL)
   {
+    // The gap between two chained strings can be filled by any bytes, so only
+    // a range of "any byte" can be turned into a gap; when the dot does not
+    // match newlines (a regexp without the /s modifier) it must stay in the
+    // regexp.
     if (!child->greedy && child->type == RE_NODE_RANGE_ANY &&
+        (re_ast->flags & RE_FLAGS_DOT_ALL) &&
         child->prev_sibling != NULL && child->next_sibling != NULL &&
         (child->start > YR_STRING_CHAINING_THRESHOLD ||
          child->end > YR_STRING_CHAINING_THRESHOLD))
